@@ -351,7 +351,7 @@ def signature(clause, fresh, feats):
 def bounds(quick):
     """(max plan length, temporal problems, instantaneous problems, candidates per problem, plans kept per problem,
     fresh-Environment conversions, variants of each dependency probe)"""
-    return (3, 150, 40, 30, 3, 6, 1) if quick else (4, 1500, 400, 40, 4, 30, 6)
+    return (3, 150, 40, 30, 3, 6, 1) if quick else (4, 900, 250, 40, 4, 20, 4)
 
 
 def run(ctx):
